@@ -3522,7 +3522,8 @@ def _formtran_0(nas, dof, gset):
     if gset:
         ngset = np.count_nonzero(mksetpv(uset, "p", "g"))
         tran = np.zeros((len(pvdof), ngset))
-        tran[:, pvdof] = np.eye(len(pvdof))
+        # (a DOF may be requested more than once)
+        tran[np.arange(len(pvdof)), pvdof] = 1.0
         return tran, dof
 
     if "phg" in nas and 0 in nas["phg"]:
